@@ -352,7 +352,7 @@ class Inliner(object):
     out = []
     for s in stmts:
       out.extend(self._stmt(s, fn, stack, inlined, depth))
-    if _subst_flags(out) | _move_flags(out, fn):
+    if _subst_flags(out) | _move_flags(out, fn) | _sink_flag_tests(out):
       inlined.append('<flag>')
     un = _unroll_literal_loops(out, getattr(self, '_module', None))
     if un is not None:
@@ -596,14 +596,23 @@ class Inliner(object):
     if callee.cls is not None and params and not callee.is_staticmethod and isinstance(f, ast.Attribute):
       recv = f.value
       first = params[0]
+      base_call = isinstance(recv, ast.Name) and recv.id[:1].isupper() and not callee.is_classmethod
+      if base_call:
+        # `Name.m(...)` with a capitalised Name: an explicit-base call Base.m(self, ...), unless Name is a module-level
+        # instance (carbon's `BufferManager = BufferManager()` singletons)
+        try:
+          ts = self.T.expr_types(recv, fn.module, getattr(fn, 'original', fn) if hasattr(fn, 'node') and not isinstance(fn.node, ast.Module) else None)
+        except Exception:
+          ts = ()
+        if ts and all(t_[0] == 'inst' for t_ in ts):
+          base_call = False
       if isinstance(recv, ast.Name) and recv.id == first:
         rename.pop(first, None)           # self stays self
-      elif isinstance(recv, ast.Name) and recv.id[:1].isupper() and not callee.is_classmethod and args:
-        # explicit-base call  Base.m(self, ...)
+      elif base_call and args:
         pass
       else:
         binds.append((first, recv))
-      if not (isinstance(recv, ast.Name) and recv.id[:1].isupper() and not callee.is_classmethod):
+      if not base_call:
         params_for_args = params[1:]
         bound_self = True
     if not bound_self:
@@ -951,6 +960,75 @@ def _subst_flags(block):
         return n
     u.test = S().visit(u.test)
     ast.fix_missing_locations(u)
+    changed = True
+  return changed
+
+
+def _sink_flag_tests(block):
+  """if c: A; r = False                      if c: A; <what `if r` does for False>
+     else: B; r = <expr>            ==>      else: B; r = <expr>; if r: S1 else: S2
+     if r: S1 else: S2
+  for a synthetic result name r (the value a spliced helper returned) that every arm of the first statement assigns last
+  and that only the test of the second reads.  The test moves to where its outcome is known; nothing is reordered."""
+  import re
+  syn = re.compile(r'^__ret\d+$|__i\d+$')
+  changed = False
+  i = 0
+  while i < len(block) - 1:
+    a, u = block[i], block[i + 1]
+    i += 1
+    if not (isinstance(a, ast.If) and a.orelse and isinstance(u, ast.If)):
+      continue
+    t = u.test
+    neg = isinstance(t, ast.UnaryOp) and isinstance(t.op, ast.Not)
+    core = t.operand if neg else t
+    if not isinstance(core, ast.Name) or not syn.search(core.id):
+      continue
+    x = core.id
+    loads = sum(1 for st in block for y in ast.walk(st) if isinstance(y, ast.Name) and y.id == x and isinstance(y.ctx, ast.Load))
+    if loads != 1:
+      continue
+
+    def leaves(blk):
+      """the assignments `x = v` that end every path through blk, or None"""
+      if not blk:
+        return None
+      last = blk[-1]
+      if isinstance(last, ast.Assign) and len(last.targets) == 1 and isinstance(last.targets[0], ast.Name) and last.targets[0].id == x:
+        if any(isinstance(y, ast.Name) and y.id == x for y in ast.walk(last.value)):
+          return None
+        return [(blk, last)]
+      if isinstance(last, ast.If) and last.orelse:
+        l, r = leaves(last.body), leaves(last.orelse)
+        if l is None or r is None:
+          return None
+        return l + r
+      return None
+    lv = leaves(a.body)
+    rv = leaves(a.orelse)
+    if lv is None or rv is None:
+      continue
+    all_leaves = lv + rv
+    consts = [isinstance(asg.value, ast.Constant) and isinstance(asg.value.value, (bool, type(None), int, str)) for _, asg in all_leaves]
+    if not any(consts):
+      continue
+    size = sum(1 for y in ast.walk(u) if isinstance(y, ast.stmt))
+    if consts.count(False) > 1 and size > MAX_DUP:
+      continue
+    for (blk, asg), is_c in zip(all_leaves, consts):
+      if is_c:
+        truth = bool(asg.value.value)
+        if neg:
+          truth = not truth
+        chosen = [_clone(st) for st in (u.body if truth else u.orelse)]
+        blk.pop()                      # the flag is not read on this arm any more
+        blk.extend(chosen)
+        if not blk:
+          blk.append(ast.copy_location(ast.Pass(), asg))
+      else:
+        blk.append(_clone(u))
+    block.pop(i)
+    i -= 1
     changed = True
   return changed
 
